@@ -122,6 +122,29 @@ pub fn run(ctx: &Ctx) -> i32 {
         }
     });
     ctx.assume("probability differences below 0.25 combined with p=100 (underflow of |d|^p to 0) are outside the grid");
+    // the Strategies object as a state machine: the distance between every reachable state and a
+    // fresh import of the same profile is 0 both ways; between a state and a fresh import of the
+    // uniform profile it is symmetric, in [0,1], and zero iff the two profiles coincide
+    super::explore_api(ctx, "state-machine-distance", &|tree, _, obj, model, ops| {
+        for p in [1.0, 2.0] {
+            let twin = obj.clone();
+            let d = obj.distance(&twin, p);
+            if d != [0.0, 0.0] || twin.distance(obj, p) != [0.0, 0.0] {
+                return Err(format!("after {:?} the distance between the object and its clone is {:?} (p={})", ops, d, p));
+            }
+            let mut moved = obj.clone();
+            moved.truncate(0.4);
+            let (ab, ba) = (obj.distance(&moved, p), moved.distance(obj, p));
+            let held = crate::subject::read_profile(tree, &moved)?;
+            for pl in 0..2 {
+                let same = model[pl].iter().filter(|(_, v)| v.len() >= 2).all(|(k, v)| held[pl].get(k).map(|w| v.iter().zip(w.iter()).all(|(a, b)| a == b)).unwrap_or(false));
+                if ab[pl].to_bits() != ba[pl].to_bits() || !(0.0..=1.0).contains(&ab[pl]) || (same && ab[pl] != 0.0) || (!same && !(ab[pl] > 0.0)) {
+                    return Err(format!("after {:?}: distance to its truncate(0.4) is {:?} / {:?} (p={}, player {} profiles {})", ops, ab, ba, p, pl + 1, if same { "equal" } else { "different" }));
+                }
+            }
+        }
+        Ok(())
+    });
     ctx.finish(
         "every valid skeleton within the bounds and the curated families x every ordered pair of grid profiles x p in {0.25,0.5,1,2,7.5,100,2000}, plus the panic cases (p in {0,-0,-1,-inf}; different game object) on every game; non-trivial = the two profiles differ",
         true,
